@@ -246,6 +246,10 @@ def remote_new_qubit_inreg : Stmt :=
       (acquire SELF false),
     tryFinally
       (block [
+        Stmt.ite .any
+          -- quantumError
+          (raise .other)
+          (skip),
         check .capacity,
         Stmt.ite .any
           -- noQubitError
